@@ -123,6 +123,7 @@ class Ref(T):
         inst.attrs = {}       # attribute name -> python function(engine, st, self) -> value
         inst.noinline = set()
         inst.null = None      # z3 constant standing for python None when the reference is nullable
+        inst.mutable = {}     # attribute name -> T : fields that the verified code assigns (kept in a per-path heap array Ref -> T)
         Ref._registry[name] = inst
         return inst
 
